@@ -87,7 +87,8 @@ func (e *Enc) callCommon(fr *Frame, st *State, cc *ssa.CallCommon, fnv *Val, arg
 	// dynamic function value: a contract may be attached to its named function type
 	dk := "dyncall:" + typeStr(cc.Value.Type())
 	if c, ok := e.DB.Contracts[dk]; ok && c.callable() {
-		return e.applyContract(fr, st, c, args, rt, hint, pos)
+		// the function value itself is bound to the name `callee` in a functype contract
+		return e.applyContract(fr, st, c, append([]*Val{fnv}, args...), rt, hint, pos)
 	}
 	return e.defaultCall(fr, st, dk, args, rt, hint, pos)
 }
@@ -290,6 +291,7 @@ func (e *Enc) havocAll(st *State) {
 		st.heap[k] = e.fresh(k, e.heapSort[k])
 		e.writeLog[k] = true
 	}
+	e.havocUnknown(st)
 	e.bumpAlloc(st)
 }
 
@@ -298,7 +300,13 @@ func (e *Enc) havocAll(st *State) {
 func (e *Enc) bindParams(c *Contract, args []*Val, sig *types.Signature) map[string]*Val {
 	vars := map[string]*Val{}
 	i := 0
-	if sig.Recv() != nil || c.RecvName != "" {
+	if c.funcType != "" {
+		// call through a value of a named func type: args[0] is the function value
+		if len(args) > 0 {
+			vars["callee"] = args[0]
+			i = 1
+		}
+	} else if sig.Recv() != nil || c.RecvName != "" {
 		if len(args) > 0 {
 			if c.RecvName != "" {
 				vars[c.RecvName] = args[0]
